@@ -19,6 +19,359 @@ From Mv Require Import Common.Bytes Model.Entry Model.Fs Model.FsExt Model.Trans
      Model.TransitionCheck.
 Open Scope string_scope.
 
+
+(* ---------- named literals: Coq reads a literal it has not seen in this
+   process at about a millisecond per character, an identifier at once; the
+   harness prints the strings and numbers below by name ---------- *)
+Definition S_a : string := "a".
+Definition S_b : string := "b".
+Definition S_c : string := "c".
+Definition S_d : string := "d".
+Definition S_e : string := "e".
+Definition S_f : string := "f".
+Definition S_g : string := "g".
+Definition S_n1 : string := "n1".
+Definition S_n2 : string := "n2".
+Definition S_n9 : string := "n9".
+Definition S_u1 : string := "u1".
+Definition S_u2 : string := "u2".
+Definition S_zz : string := "zz".
+Definition S_q : string := "q".
+Definition S_root : string := "root".
+Definition S_inner : string := "inner".
+Definition S_inside : string := "inside".
+Definition S__2emutagen_2dtemporary_2dx : string := ".mutagen-temporary-x".
+Definition S_c1 : string := "c1".
+Definition S_c22 : string := "c22".
+Definition S_c333 : string := "c333".
+Definition S_empty : string := "".
+Definition S_c4444 : string := "c4444".
+Definition S_xy : string := "xy".
+Definition S_tmp : string := "tmp".
+Definition S_n22 : string := "n22".
+Definition S_n333 : string := "n333".
+Definition S_s55555 : string := "s55555".
+Definition S_unknown : string := "unknown".
+Definition S_deep : string := "deep".
+Definition S_x : string := "x".
+Definition S_was_2da_2ddirectory : string := "was-a-directory".
+Definition S_c1_2bgrown : string := "c1+grown".
+Definition S_c22_2bgrown : string := "c22+grown".
+Definition S_c333_2bgrown : string := "c333+grown".
+Definition S__2bgrown : string := "+grown".
+Definition S_c4444_2bgrown : string := "c4444+grown".
+Definition S_xy_2bgrown : string := "xy+grown".
+Definition S_tmp_2bgrown : string := "tmp+grown".
+Definition S__23_23 : string := "##".
+Definition S__23_23_23 : string := "###".
+Definition S__23_23_23_23 : string := "####".
+Definition S__23_23_23_23_23 : string := "#####".
+Definition S_t : string := "t".
+Definition S_a_2fb : string := "a/b".
+Definition S__2e_2e_2fout : string := "../out".
+Definition S__2fabs : string := "/abs".
+Definition S_a_2f_2e_2e_2fb : string := "a/../b".
+Definition S_retargeted : string := "retargeted".
+Definition S_elsewhere : string := "elsewhere".
+Definition S_h1 : string := "h1".
+Definition S_h2 : string := "h2".
+Definition S_h3 : string := "h3".
+Definition S_h4 : string := "h4".
+Definition S_h5 : string := "h5".
+Definition S_h6 : string := "h6".
+Definition S_h7 : string := "h7".
+Definition S_h8 : string := "h8".
+Definition S_h9 : string := "h9".
+Definition S_h10 : string := "h10".
+Definition S_h11 : string := "h11".
+Definition S_h12 : string := "h12".
+Definition S_h13 : string := "h13".
+Definition S_h14 : string := "h14".
+Definition S_h15 : string := "h15".
+Definition S_h16 : string := "h16".
+Definition S_h17 : string := "h17".
+Definition S_h18 : string := "h18".
+Definition S_h19 : string := "h19".
+Definition S_h20 : string := "h20".
+Definition S_h21 : string := "h21".
+Definition S_h22 : string := "h22".
+Definition S_h23 : string := "h23".
+Definition S_h24 : string := "h24".
+Definition S_h25 : string := "h25".
+Definition S_h26 : string := "h26".
+Definition S_h27 : string := "h27".
+Definition S_h28 : string := "h28".
+Definition S_h29 : string := "h29".
+Definition S_h30 : string := "h30".
+Definition S_h31 : string := "h31".
+Definition S_h32 : string := "h32".
+Definition S_h33 : string := "h33".
+Definition S_h34 : string := "h34".
+Definition S_h35 : string := "h35".
+Definition S_h36 : string := "h36".
+Definition S_h37 : string := "h37".
+Definition S_h38 : string := "h38".
+Definition S_h39 : string := "h39".
+Definition S_h40 : string := "h40".
+Definition S_h41 : string := "h41".
+Definition S_h42 : string := "h42".
+Definition S_h43 : string := "h43".
+Definition S_h44 : string := "h44".
+Definition S_h45 : string := "h45".
+Definition S_h46 : string := "h46".
+Definition S_h47 : string := "h47".
+Definition S_h48 : string := "h48".
+Definition S_h49 : string := "h49".
+Definition S_h50 : string := "h50".
+Definition S_h51 : string := "h51".
+Definition S_h52 : string := "h52".
+Definition S_h53 : string := "h53".
+Definition S_h54 : string := "h54".
+Definition S_h55 : string := "h55".
+Definition S_h56 : string := "h56".
+Definition S_h57 : string := "h57".
+Definition S_h58 : string := "h58".
+Definition S_h59 : string := "h59".
+Definition S_h60 : string := "h60".
+Definition S_h61 : string := "h61".
+Definition S_h62 : string := "h62".
+Definition S_h63 : string := "h63".
+Definition S_h64 : string := "h64".
+Definition S_h65 : string := "h65".
+Definition S_h66 : string := "h66".
+Definition S_h67 : string := "h67".
+Definition S_h68 : string := "h68".
+Definition S_h69 : string := "h69".
+Definition S_h70 : string := "h70".
+Definition S_h71 : string := "h71".
+Definition S_h72 : string := "h72".
+Definition S_h73 : string := "h73".
+Definition S_h74 : string := "h74".
+Definition S_h75 : string := "h75".
+Definition S_h76 : string := "h76".
+Definition S_h77 : string := "h77".
+Definition S_h78 : string := "h78".
+Definition S_h79 : string := "h79".
+Definition S_h80 : string := "h80".
+Definition k0 : N := 0%N.
+Definition k1 : N := 1%N.
+Definition k2 : N := 2%N.
+Definition k3 : N := 3%N.
+Definition k4 : N := 4%N.
+Definition k5 : N := 5%N.
+Definition k6 : N := 6%N.
+Definition k7 : N := 7%N.
+Definition k8 : N := 8%N.
+Definition k9 : N := 9%N.
+Definition k10 : N := 10%N.
+Definition k11 : N := 11%N.
+Definition k12 : N := 12%N.
+Definition k13 : N := 13%N.
+Definition k14 : N := 14%N.
+Definition k15 : N := 15%N.
+Definition k16 : N := 16%N.
+Definition k17 : N := 17%N.
+Definition k18 : N := 18%N.
+Definition k19 : N := 19%N.
+Definition k20 : N := 20%N.
+Definition k21 : N := 21%N.
+Definition k22 : N := 22%N.
+Definition k23 : N := 23%N.
+Definition k24 : N := 24%N.
+Definition k25 : N := 25%N.
+Definition k26 : N := 26%N.
+Definition k27 : N := 27%N.
+Definition k28 : N := 28%N.
+Definition k29 : N := 29%N.
+Definition k30 : N := 30%N.
+Definition k31 : N := 31%N.
+Definition k32 : N := 32%N.
+Definition k33 : N := 33%N.
+Definition k34 : N := 34%N.
+Definition k35 : N := 35%N.
+Definition k36 : N := 36%N.
+Definition k37 : N := 37%N.
+Definition k38 : N := 38%N.
+Definition k39 : N := 39%N.
+Definition k40 : N := 40%N.
+Definition k41 : N := 41%N.
+Definition k42 : N := 42%N.
+Definition k43 : N := 43%N.
+Definition k44 : N := 44%N.
+Definition k45 : N := 45%N.
+Definition k46 : N := 46%N.
+Definition k47 : N := 47%N.
+Definition k48 : N := 48%N.
+Definition k49 : N := 49%N.
+Definition k50 : N := 50%N.
+Definition k51 : N := 51%N.
+Definition k52 : N := 52%N.
+Definition k53 : N := 53%N.
+Definition k54 : N := 54%N.
+Definition k55 : N := 55%N.
+Definition k56 : N := 56%N.
+Definition k57 : N := 57%N.
+Definition k58 : N := 58%N.
+Definition k59 : N := 59%N.
+Definition k60 : N := 60%N.
+Definition k61 : N := 61%N.
+Definition k62 : N := 62%N.
+Definition k63 : N := 63%N.
+Definition k64 : N := 64%N.
+Definition k65 : N := 65%N.
+Definition k66 : N := 66%N.
+Definition k67 : N := 67%N.
+Definition k68 : N := 68%N.
+Definition k69 : N := 69%N.
+Definition k70 : N := 70%N.
+Definition k71 : N := 71%N.
+Definition k72 : N := 72%N.
+Definition k73 : N := 73%N.
+Definition k74 : N := 74%N.
+Definition k75 : N := 75%N.
+Definition k76 : N := 76%N.
+Definition k77 : N := 77%N.
+Definition k78 : N := 78%N.
+Definition k79 : N := 79%N.
+Definition k80 : N := 80%N.
+Definition k81 : N := 81%N.
+Definition k82 : N := 82%N.
+Definition k83 : N := 83%N.
+Definition k84 : N := 84%N.
+Definition k85 : N := 85%N.
+Definition k86 : N := 86%N.
+Definition k87 : N := 87%N.
+Definition k88 : N := 88%N.
+Definition k89 : N := 89%N.
+Definition k90 : N := 90%N.
+Definition k91 : N := 91%N.
+Definition k92 : N := 92%N.
+Definition k93 : N := 93%N.
+Definition k94 : N := 94%N.
+Definition k95 : N := 95%N.
+Definition k96 : N := 96%N.
+Definition k97 : N := 97%N.
+Definition k98 : N := 98%N.
+Definition k99 : N := 99%N.
+Definition k100 : N := 100%N.
+Definition k101 : N := 101%N.
+Definition k102 : N := 102%N.
+Definition k103 : N := 103%N.
+Definition k104 : N := 104%N.
+Definition k105 : N := 105%N.
+Definition k106 : N := 106%N.
+Definition k107 : N := 107%N.
+Definition k108 : N := 108%N.
+Definition k109 : N := 109%N.
+Definition k110 : N := 110%N.
+Definition k111 : N := 111%N.
+Definition k112 : N := 112%N.
+Definition k113 : N := 113%N.
+Definition k114 : N := 114%N.
+Definition k115 : N := 115%N.
+Definition k116 : N := 116%N.
+Definition k117 : N := 117%N.
+Definition k118 : N := 118%N.
+Definition k119 : N := 119%N.
+Definition k120 : N := 120%N.
+Definition k121 : N := 121%N.
+Definition k122 : N := 122%N.
+Definition k123 : N := 123%N.
+Definition k124 : N := 124%N.
+Definition k125 : N := 125%N.
+Definition k126 : N := 126%N.
+Definition k127 : N := 127%N.
+Definition k128 : N := 128%N.
+Definition k129 : N := 129%N.
+Definition k130 : N := 130%N.
+Definition k131 : N := 131%N.
+Definition k132 : N := 132%N.
+Definition k133 : N := 133%N.
+Definition k134 : N := 134%N.
+Definition k135 : N := 135%N.
+Definition k136 : N := 136%N.
+Definition k137 : N := 137%N.
+Definition k138 : N := 138%N.
+Definition k139 : N := 139%N.
+Definition k140 : N := 140%N.
+Definition k141 : N := 141%N.
+Definition k142 : N := 142%N.
+Definition k143 : N := 143%N.
+Definition k144 : N := 144%N.
+Definition k145 : N := 145%N.
+Definition k146 : N := 146%N.
+Definition k147 : N := 147%N.
+Definition k148 : N := 148%N.
+Definition k149 : N := 149%N.
+Definition k150 : N := 150%N.
+Definition k151 : N := 151%N.
+Definition k152 : N := 152%N.
+Definition k153 : N := 153%N.
+Definition k154 : N := 154%N.
+Definition k155 : N := 155%N.
+Definition k156 : N := 156%N.
+Definition k157 : N := 157%N.
+Definition k158 : N := 158%N.
+Definition k159 : N := 159%N.
+Definition k160 : N := 160%N.
+Definition k161 : N := 161%N.
+Definition k162 : N := 162%N.
+Definition k163 : N := 163%N.
+Definition k164 : N := 164%N.
+Definition k165 : N := 165%N.
+Definition k166 : N := 166%N.
+Definition k167 : N := 167%N.
+Definition k168 : N := 168%N.
+Definition k169 : N := 169%N.
+Definition k170 : N := 170%N.
+Definition k171 : N := 171%N.
+Definition k172 : N := 172%N.
+Definition k173 : N := 173%N.
+Definition k174 : N := 174%N.
+Definition k175 : N := 175%N.
+Definition k176 : N := 176%N.
+Definition k177 : N := 177%N.
+Definition k178 : N := 178%N.
+Definition k179 : N := 179%N.
+Definition k180 : N := 180%N.
+Definition k181 : N := 181%N.
+Definition k182 : N := 182%N.
+Definition k183 : N := 183%N.
+Definition k184 : N := 184%N.
+Definition k185 : N := 185%N.
+Definition k186 : N := 186%N.
+Definition k187 : N := 187%N.
+Definition k188 : N := 188%N.
+Definition k189 : N := 189%N.
+Definition k190 : N := 190%N.
+Definition k191 : N := 191%N.
+Definition k192 : N := 192%N.
+Definition k193 : N := 193%N.
+Definition k194 : N := 194%N.
+Definition k195 : N := 195%N.
+Definition k196 : N := 196%N.
+Definition k197 : N := 197%N.
+Definition k198 : N := 198%N.
+Definition k199 : N := 199%N.
+Definition k200 : N := 200%N.
+Definition k384 : N := 384%N.
+Definition k416 : N := 416%N.
+Definition k420 : N := 420%N.
+Definition k448 : N := 448%N.
+Definition k488 : N := 488%N.
+Definition k493 : N := 493%N.
+Definition k511 : N := 511%N.
+Definition k4096 : N := 4096%N.
+Definition k33152 : N := 33152%N.
+Definition k33184 : N := 33184%N.
+Definition k33188 : N := 33188%N.
+Definition k33216 : N := 33216%N.
+Definition k33256 : N := 33256%N.
+Definition k33261 : N := 33261%N.
+Definition k33200 : N := 33200%N.
+Definition k33208 : N := 33208%N.
+Definition k33192 : N := 33192%N.
+
 (* ---------- short constructors for case files ---------- *)
 Definition mt (mode size mtime fid : N) : meta :=
   {| m_mode := mode; m_size := size; m_mtime := mtime; m_fid := fid; m_dev := 1 |}.
@@ -119,9 +472,9 @@ Fixpoint list_eqb {A : Type} (eqb : A -> A -> bool) (x y : list A) : bool :=
   | _, _ => false
   end.
 
-Definition run_model (c : tcase) (o : nat -> outcome) : tstate * list oentry :=
+Definition run_model (fixed : bool) (c : tcase) (o : nat -> outcome) : tstate * list oentry :=
   transition (norm_of (t_norm c)) (menv o) (t_rn c) (t_cache c) (t_slm c)
-             (t_dfm c) (t_ddm c) (t_own c) (t_pre c) (t_store c) (t_plan c).
+             (t_dfm c) (t_ddm c) (t_own c) fixed (t_pre c) (t_store c) (t_plan c).
 
 Definition agrees (c : tcase) (out : tstate * list oentry) : bool :=
   let '(s, rs) := out in
@@ -141,11 +494,12 @@ Fixpoint search_from (f : nat -> bool) (k n : nat) : bool :=
   | S n' => if f k then true else search_from f (S k) n'
   end.
 
-Definition model_agrees (c : tcase) : bool :=
+(* [fixed]: compare with the model of createSymbolicLink as repaired *)
+Definition model_agrees (fixed : bool) (c : tcase) : bool :=
   match t_cancel c with
-  | CNever => agrees c (run_model c no_faults)
-  | CStart => agrees c (run_model c (cancel_from 0))
-  | CProvide _ => search_from (fun k => agrees c (run_model c (cancel_from k))) 0 cancel_search
+  | CNever => agrees c (run_model fixed c no_faults)
+  | CStart => agrees c (run_model fixed c (cancel_from 0))
+  | CProvide _ => search_from (fun k => agrees c (run_model fixed c (cancel_from k))) 0 cancel_search
   end.
 
 (* ---------- well-formedness of a case ---------- *)
@@ -191,16 +545,16 @@ Definition impl_cancel_start (c : tcase) : bool :=
 (* a staged file that is missing, reached without any other failure, sets the
    flag: checked through the correspondence bit (the model sets it) *)
 
-Definition corr_bit (c : tcase) : nat :=
-  if t_faulted c then 0 else if model_agrees c then 0 else 1.
+Definition corr_bit (fixed : bool) (c : tcase) : nat :=
+  if t_faulted c then 0 else if model_agrees fixed c then 0 else 1.
 
-Definition failures_with (check known : tcase -> bool) :=
+Definition failures_with (fixed : bool) (check known : tcase -> bool) :=
   fix go (i : nat) (cs : list tcase) : list (nat * nat) :=
     match cs with
     | [] => []
     | c :: t =>
       let v := if case_wf c then
-                 corr_bit c + (if check c then 0 else (if known c then 6 else 2))
+                 corr_bit fixed c + (if check c then 0 else (if known c then 6 else 2))
                else 8 in
       match v with
       | O => go (S i) t
@@ -210,10 +564,12 @@ Definition failures_with (check known : tcase -> bool) :=
 
 Definition no_known (c : tcase) : bool := false.
 
-Definition c08_failures := failures_with impl_c08 no_known.
+Definition c08_failures := failures_with false impl_c08 no_known.
+Definition c08_failures_fixed := failures_with true impl_c08 no_known.
 
 (* C09 is claimed for transitions that start from the scanned state *)
 Definition c09_check (c : tcase) : bool :=
   (if c09_premise c then impl_c09 c else true) && impl_cancel_start c.
 
-Definition c09_failures := failures_with c09_check no_known.
+Definition c09_failures := failures_with false c09_check no_known.
+Definition c09_failures_fixed := failures_with true c09_check no_known.
